@@ -121,3 +121,18 @@ pub assume_specification<'a, T: Copy + 'a, A: std::alloc::Allocator, I: std::ite
 pub proof fn axiom_ext_items_vec<'a, T>(x: &'a Vec<T>)
   ensures ext_items::<T, &'a Vec<T>>(x) == x@
 {}
+
+// ---- udev (C17): the escaper is the concatenation of the per-character escapes ----
+// Vec::extend over an iterator of owned items appends the items the iterator yields, in order (std documentation); what a `Chars` yields is the characters it has left
+pub uninterp spec fn ext_own<T, I>(i: I) -> Seq<T>;
+pub assume_specification<T, A: std::alloc::Allocator, I: std::iter::IntoIterator<Item = T>> [<std::vec::Vec<T, A> as std::iter::Extend<T>>::extend] (v: &mut std::vec::Vec<T, A>, i: I)
+  ensures final(v)@ == old(v)@ + ext_own::<T, I>(i);
+#[verifier::external_body]
+pub proof fn axiom_ext_own_chars<'a>(c: std::str::Chars<'a>)
+  ensures ext_own::<char, std::str::Chars<'a>>(c) == vstd::std_specs::iter::IteratorSpec::remaining(&c)
+{}
+// collecting `&char` items into a String gives the string of those characters, in order (std: `impl FromIterator<&char> for String`)
+#[verifier::external_body]
+pub proof fn axiom_string_from_chars(items: Seq<&char>, r: String)
+  ensures <String as vstd::std_specs::iter::FromIteratorSpec<&char>>::from_iter_ensures(items, r) ==> r@ == items.map_values(|x: &char| *x)
+{}
